@@ -74,7 +74,7 @@ func bsdiffApply(old []byte, cs []bctrl, newSize int64, splitAt int) (out []byte
 	var buf bytes.Buffer
 	if splitAt < 0 {
 		i := 0
-		err := pc.Patch(bytes.NewReader(old), &buf, newSize, func(msg proto.Message) error {
+		err := pc.Patch(c12OldReader(old), &buf, newSize, func(msg proto.Message) error {
 			if i >= len(cs) {
 				return io.ErrUnexpectedEOF
 			}
@@ -565,7 +565,7 @@ func c12LruSessions(env *Env, m *wvlib.Model, c *C12Case) {
 					res = fmt.Sprintf("PANIC %v", rec)
 				}
 			}()
-			if err := lf.Reset(bytes.NewReader(file)); err != nil {
+			if err := lf.Reset(c12OldReader(file)); err != nil {
 				return "ERR " + err.Error()
 			}
 			ref := bytes.NewReader(file)
@@ -660,7 +660,7 @@ func c12Lru(env *Env, m *wvlib.Model, c *C12Case) {
 		if err != nil {
 			return "ERR " + err.Error()
 		}
-		if err := lf.Reset(bytes.NewReader(file)); err != nil {
+		if err := lf.Reset(c12OldReader(file)); err != nil {
 			return "ERR " + err.Error()
 		}
 		ref := bytes.NewReader(file)
@@ -705,4 +705,25 @@ func c12Lru(env *Env, m *wvlib.Model, c *C12Case) {
 	}
 	env.R.Eval(c.Seed, len(file) > c.Chunk && len(ops) > 2)
 	env.R.Count("lru", 1)
+}
+
+// c12OldReader: the old file as the patcher gets it; for a third of the files a ReadSeeker that hands out fewer
+// bytes than asked for (io.Reader allows that at any time).
+func c12OldReader(data []byte) io.ReadSeeker {
+	if (len(data)+int(wvlib.Fnv(data)%7))%3 == 0 {
+		return &c12ShortRS{Reader: bytes.NewReader(data), rng: wvlib.NewRng(uint64(len(data)) + 3)}
+	}
+	return bytes.NewReader(data)
+}
+
+type c12ShortRS struct {
+	*bytes.Reader
+	rng *wvlib.Rng
+}
+
+func (s *c12ShortRS) Read(p []byte) (int, error) {
+	if len(p) > 1 {
+		p = p[:1+s.rng.Intn(len(p))]
+	}
+	return s.Reader.Read(p)
 }
